@@ -655,6 +655,15 @@ def c14(m, o):
     rng = random.Random(o.get("seed", 0))
     viol, checks = [], 0
     ops = prog["ops"]
+    if o.get("ratio"):
+        # a function output with non-finite entries (a ratio whose denominator vanishes at the first time) and a
+        # cumulative output that consumes it: pruning / not saving the ratio must not change what the consumer sees
+        have = [x["name"] for x in ops if x["op"] == "req"]
+        wl_ = [x for x in ops if x["op"] == "whitelist"]
+        ops = [x for x in ops if x["op"] != "whitelist"] + \
+              [{"op": "req", "name": "rt", "save": True, "req": {"type": "func", "fn": 3, "sources": [have[0], have[-1]], "params": []}},
+               {"op": "req", "name": "crt", "save": True, "req": {"type": "cum", "source": "rt", "start": None}}] + wl_
+        prog = dict(prog, ops=ops)
     req_idx = [i for i, x in enumerate(ops) if x["op"] == "req"]
     names = [ops[i]["name"] for i in req_idx]
     base_ops = [dict(x, save=True) if x["op"] == "req" else x for x in ops if x["op"] != "whitelist"]
